@@ -182,9 +182,11 @@ def conclude(prop, tier, seed, run, wall):
     samples = []
     per_backend = collections.Counter()
     extra = {}
+    distinct_nt = 0
     for s in run.shards:
         events += s["events"]
         per_backend[s["backend"]] += s["events"]
+        distinct_nt += s.get("distinct_nontrivial", 0)
         labels.update(s["labels"])
         bad += s["bad"]
         if len(samples) < 4:
@@ -228,10 +230,13 @@ def conclude(prop, tier, seed, run, wall):
         "states": states, "transitions": transitions,
         "traces_validated_against_impl": events,
         "evaluations": events,
-        "distinct_nontrivial": sum(nontriv_labels.values()),
+        "distinct_nontrivial": distinct_nt,
+        "nontrivial_events": sum(nontriv_labels.values()),
         "rule": "every event is one executed public call judged by TLC against the TLA+ reference operators; events "
-                "are enumerated by the driver (harness/drivers/%s.py) without duplicates inside a slice and slices "
-                "partition the stimuli; an event counts as non-trivial when the SPEC classified it into a class "
+                "are enumerated by the driver (harness/drivers/%s.py); slices partition the stimuli; distinct_nontrivial "
+                "counts, per (back-end, slice), the DISTINCT (operation, arguments, pre-values) triples (by hash) of the "
+                "non-trivial events and sums over the slices (the same stimulus executed in both back-ends counts "
+                "twice: it is a different execution); an event counts as non-trivial when the SPEC classified it into a class "
                 "other than the plain one (ambiguous/skipped wall time, offset change between source and result, "
                 "non-default entry point or fold, exception outcome, ...: label contains a marker listed in "
                 "harness/pv.py:NONTRIVIAL)" % prop.lower(),
